@@ -33,7 +33,7 @@ func runConc(c Case, s *hx.Sink) string {
 	}
 	fail := func(what string, detail any) string {
 		s.DirectViolation(c.ID, what, detail)
-		return fmt.Sprintf("CConc %s (mkConc %s %s %s %s (-1)%%Z [] 0%%Z 0%%Z 0%%Z 0%%Z [])", hx.N(c.ID), hx.Z(page), hx.Z(c.Bs), hx.Z(c.Size), hx.Bool(c.Fit))
+		return fmt.Sprintf("CConc %s (mkConc %s %s %s %s (-1) [] 0 0 0 0 [])", hx.N(c.ID), z(page), z(c.Bs), z(c.Size), hx.Bool(c.Fit))
 	}
 	if err := st.open(true); err != nil {
 		return fail("storage could not be created", err.Error())
@@ -165,10 +165,10 @@ func runConc(c Case, s *hx.Sink) string {
 	tot := 0
 	for g, mine := range held {
 		sort.Slice(mine, func(a, b int) bool { return mine[a] < mine[b] })
-		hs[g] = hx.ZList(mine)
+		hs[g] = zl(mine)
 		tot += len(mine)
 	}
 	s.Count(fmt.Sprintf("conc:held-at-end:%d", tot))
-	return fmt.Sprintf("CConc %s (mkConc %s %s %s %s %s %s %s %s %s %s %s)", hx.N(c.ID), hx.Z(page), hx.Z(c.Bs), hx.Z(c.Size), hx.Bool(c.Fit),
-		hx.Z(int64(count)), hx.List(hs), hx.Z(arranged.Load()), hx.Z(freed.Load()), hx.Z(int64(avail)), hx.Z(ravail), hx.ZList(rset))
+	return fmt.Sprintf("CConc %s (mkConc %s %s %s %s %s %s %s %s %s %s %s)", hx.N(c.ID), z(page), z(c.Bs), z(c.Size), hx.Bool(c.Fit),
+		z(int64(count)), hx.List(hs), z(arranged.Load()), z(freed.Load()), z(int64(avail)), z(ravail), ranges(rset))
 }
